@@ -20,9 +20,9 @@ const (
 )
 
 type fontInput struct {
-	file  string   // file name in in/
-	names []byte   // variant letters it contains (1 = ttf, >1 = ttc)
-	raw   []byte   // explicit content (invalid inputs)
+	file  string // file name in in/
+	names []byte // variant letters it contains (1 = ttf, >1 = ttc)
+	raw   []byte // explicit content (invalid inputs)
 }
 
 func writeFontInputs(e *Env, inputs []fontInput) []string {
